@@ -33,12 +33,16 @@ type runner struct {
 	kinds  map[string]bool
 }
 
-func opts(v string) []serix.Option {
+func (x *runner) opts(v string) []serix.Option {
+	var o []serix.Option
 	if v == "1" {
-		return []serix.Option{serix.WithValidation()}
+		o = append(o, serix.WithValidation())
+	}
+	if x.w != nil {
+		o = append(o, x.w.topOpts...)
 	}
 
-	return nil
+	return o
 }
 
 var debugFile *os.File
@@ -71,6 +75,11 @@ func (x *runner) exec(op string) string {
 		}
 		x.w = w
 		x.r.Count("shape:" + orExpressible(s.inexpressible()))
+		if len(w.topOpts) > 0 {
+			x.r.Count("top-code:via-WithTypeSettings")
+		} else if s.Code >= 0 {
+			x.r.Count("top-code:registered")
+		}
 
 		return "ok x=" + b01(s.inexpressible() == "")
 	case "enc":
@@ -119,7 +128,7 @@ func (x *runner) enc(arg string) string {
 	ctx := context.Background()
 
 	var js []byte
-	p := hx.Safely(func() { js, err = x.w.api.JSONEncode(ctx, ptr.Interface(), opts(flag)...) })
+	p := hx.Safely(func() { js, err = x.w.api.JSONEncode(ctx, ptr.Interface(), x.opts(flag)...) })
 	switch {
 	case p != "":
 		x.r.Count("enc:panic")
@@ -147,7 +156,7 @@ func (x *runner) enc(arg string) string {
 	// MapEncode + json.Marshal is the same document
 	var viaMap []byte
 	if p := hx.Safely(func() {
-		m, e := x.w.api.MapEncode(ctx, ptr.Interface(), opts(flag)...)
+		m, e := x.w.api.MapEncode(ctx, ptr.Interface(), x.opts(flag)...)
 		if e == nil {
 			viaMap, _ = json.Marshal(m)
 		}
@@ -157,6 +166,26 @@ func (x *runner) enc(arg string) string {
 	canonDoc := doc
 	if top.hasMap() {
 		canonDoc = doc.sorted()
+	}
+	// encoding the same value again gives the same document: byte for byte when no Go map is involved, the same
+	// JSON object (members of every object compared as a set) when Go's map iteration order shows in the member order
+	var js2 []byte
+	var err2 error
+	p2 := hx.Safely(func() { js2, err2 = x.w.api.JSONEncode(ctx, ptr.Interface(), x.opts(flag)...) })
+	switch doc2, perr := parseJSON(js2); {
+	case p2 != "" || err2 != nil || perr != nil:
+		x.r.Fail("encode-twice", fmt.Sprintf("second JSONEncode of schema %s value %s: panic=%q err=%v parse=%v", top, v, p2, err2, perr),
+			map[string]string{"oracle": "encode-twice", "outcome": "second-failed"})
+	case bytes.Equal(js, js2):
+		x.r.Count("encode-twice:same-bytes")
+	case !top.hasMap():
+		x.r.Fail("encode-twice", fmt.Sprintf("schema %s (no Go map) value %s: first %q second %q", top, v, js, js2),
+			map[string]string{"oracle": "encode-twice", "outcome": "bytes-differ-without-map"})
+	case doc2.sorted().SX() != canonDoc.SX():
+		x.r.Fail("encode-twice", fmt.Sprintf("schema %s value %s: first %q second %q differ beyond member order", top, v, js, js2),
+			map[string]string{"oracle": "encode-twice", "outcome": "documents-differ"})
+	default:
+		x.r.Count("encode-twice:member-order-differs(Go map)")
 	}
 
 	// property oracle on the implementation: the produced document decodes to the value
@@ -297,7 +326,7 @@ func (x *runner) oracle(flag string, v *V, js []byte, vreason string) {
 	top := x.w.top
 	dest := reflect.New(top.rt)
 	var err error
-	p := hx.Safely(func() { err = x.w.api.JSONDecode(context.Background(), js, dest.Interface(), opts(flag)...) })
+	p := hx.Safely(func() { err = x.w.api.JSONDecode(context.Background(), js, dest.Interface(), x.opts(flag)...) })
 	outcome := ""
 	switch {
 	case p != "":
@@ -311,6 +340,28 @@ func (x *runner) oracle(flag string, v *V, js []byte, vreason string) {
 		if got != want {
 			outcome = "dec-differs"
 			err = fmt.Errorf("decoded %s, documented result %s", got, want)
+		}
+	}
+	// the other entry point: json.Unmarshal into a map[string]any, then MapDecode - the same result or the same failure
+	if outcome != "dec-panic" {
+		m := map[string]any{}
+		dest2 := reflect.New(top.rt)
+		var err2 error
+		p2 := hx.Safely(func() {
+			if err2 = json.Unmarshal(js, &m); err2 == nil {
+				err2 = x.w.api.MapDecode(context.Background(), m, dest2.Interface(), x.opts(flag)...)
+			}
+		})
+		switch {
+		case p2 != "" || (err2 == nil) != (err == nil || outcome == "dec-differs"):
+			x.r.Fail("mapdecode-vs-jsondecode", fmt.Sprintf("schema %s json %s: JSONDecode err=%v, MapDecode panic=%q err=%v", top, js, err, p2, err2),
+				map[string]string{"oracle": "mapdecode-vs-jsondecode", "outcome": "outcome-differs"})
+		case err2 == nil && read(top, dest2.Elem()).Canon() != read(top, dest.Elem()).Canon():
+			x.r.Fail("mapdecode-vs-jsondecode", fmt.Sprintf("schema %s json %s: JSONDecode gives %s, MapDecode %s", top, js,
+				read(top, dest.Elem()).Canon(), read(top, dest2.Elem()).Canon()),
+				map[string]string{"oracle": "mapdecode-vs-jsondecode", "outcome": "value-differs"})
+		default:
+			x.r.Count("mapdecode=jsondecode")
 		}
 	}
 	sreason := top.inexpressible()
@@ -354,7 +405,7 @@ func (x *runner) dec(arg string) string {
 	top := x.w.top
 	dest := reflect.New(top.rt)
 	p := hx.Safely(func() {
-		err = x.w.api.JSONDecode(context.Background(), []byte(doc.Text()), dest.Interface(), opts(sp[0])...)
+		err = x.w.api.JSONDecode(context.Background(), []byte(doc.Text()), dest.Interface(), x.opts(sp[0])...)
 	})
 	switch {
 	case p != "":
